@@ -211,6 +211,12 @@ def branch_descriptions():
                     if nw and roles[0] != "ms":
                         continue
                     out.append((f"branch:{'nw' if nw else 'axi'}/{algo}/{''.join(roles)}/{sel}", d))
+                    # narrow-wide networks with virtual-channel identifiers take another header / link typedef branch
+                    if nw and sel == "both":
+                        import copy
+                        dv = copy.deepcopy(d)
+                        dv["routing"]["num_vc_id_bits"] = 1
+                        out.append((f"branch:nw-vc/{algo}/{''.join(roles)}/{sel}", dv))
     return out
 
 
